@@ -30,6 +30,7 @@ inductive Scalar where
 
 inductive ConstV where
   | int (n : Int)
+  | bool (b : Bool)
   | str (s : String)
   deriving Repr, DecidableEq, Inhabited
 
@@ -40,7 +41,7 @@ inductive TInstr where
   /-- an unnamed field: a constant on the wire, nothing in the object -/
   | const (ty : Scalar) (value : ConstV)
   /-- a named field with a hard-coded value -/
-  | namedConst (name : String) (ty : Scalar) (value : ConstV)
+  | namedConst (name : String) (ty : Scalar) (value : ConstV) (optional : Bool)
   /-- a length field: carries `len(object.ref) - offset` -/
   | length (name : String) (k : IntKind) (offset : Int) (optional : Bool) (ref : String)
   | array (name : String) (elem : Scalar) (len : Option TLen) (optional delimited trailing : Bool)
@@ -101,7 +102,7 @@ def tlenOf (s : Option String) : Option TLen :=
 def constOf (ty : Scalar) (text : String) : ConstV :=
   match ty with
   | .str _ _ _ => .str text
-  | .bool _ => .int (if text == "true" then 1 else 0)
+  | .bool _ => .bool (text == "true")
   | _ => .int ((PyStr.pyInt? text).getD 0)
 
 /-- the name of the field/array whose `length=` refers to length field `n`, searching `rest` -/
@@ -155,7 +156,7 @@ def elabInstr (env : Env) (structSize : String → Option Int) (clsName : String
         match e.get "name", textOf with
         | none, some t => some [.const ty (constOf ty t)]
         | none, none => none
-        | some n, some t => some [.namedConst n ty (constOf ty t)]
+        | some n, some t => some [.namedConst n ty (constOf ty t) (xmlBool e "optional")]
         | some n, none => some [.field n ty (xmlBool e "optional")]
     else if tag == "length" then
       match e.get "name", (e.get "type").bind IntKind.ofName? with
@@ -264,6 +265,7 @@ def wireScalar (call : String → Value → Bool → W) (lens : String → Optio
 
 def constValue : ConstV → Value
   | .int n => .int n
+  | .bool b => .bool b
   | .str s => .str (s.toList.map Char.toNat)
 
 structure WSt where
@@ -295,7 +297,10 @@ def wireInstr (call : String → Value → Bool → W) (lens : String → Option
       | .none => none
       | _ => (wireScalar call lens st.san ty v).map (fun b => { st with out := st.out ++ b }))
   | .const ty c, st => (wireScalar call lens st.san ty (constValue c)).map (fun b => { st with out := st.out ++ b })
-  | .namedConst _ ty c, st => (wireScalar call lens st.san ty (constValue c)).map (fun b => { st with out := st.out ++ b })
+  | .namedConst _ ty c optional, st =>
+    -- the object always holds the constant; as an optional item it is still subject to "stop at the first absent optional"
+    if optional && st.stopped then some st
+    else (wireScalar call lens st.san ty (constValue c)).map (fun b => { st with out := st.out ++ b })
   | .length _ k offset optional ref, st =>
     let rv := obj.attr ref
     if optional && (st.stopped || rv.isNone) then some { st with stopped := true }
@@ -464,7 +469,9 @@ def readInstr (call : RCall) (lex : Bool) : TInstr → RSt → Except RErr RSt
       | .error e => .error e
       | .ok (r, v) => .ok ({ s with r := r }.bind name v))
   | .const ty _, s => (readScalar call s ty).map (fun (r, _) => { s with r := r })
-  | .namedConst name ty c, s => (readScalar call s ty).map (fun (r, _) => ({ s with r := r }).bind name (constValue c))
+  | .namedConst name ty c optional, s =>
+    if optional && s.r.remaining == 0 then .ok (s.bind name (constValue c))
+    else (readScalar call s ty).map (fun (r, _) => ({ s with r := r }).bind name (constValue c))
   | .length name k offset optional _, s =>
     if optional && s.r.remaining == 0 then .ok (s.bind name .none)
     else let (r, n) := areadInt s.r k; .ok (({ s with r := r }).bind name (.int (n + offset)))
@@ -523,6 +530,7 @@ def finishObj (cls : String) (body : List TInstr) (attrs : List (String × Value
       (match ((attrs.find? (·.1 == ref)).map (·.2)).getD .missing with
        | .str x => (p.1, .int x.length)
        | .tuple x => (p.1, .int x.length)
+       | .none => (p.1, .none)
        | _ => p)
     | none => p
   .obj cls (attrs.map fix) size
